@@ -196,7 +196,9 @@ func (c *client) Execute(
 		workStartMsg = RuntimeMessage{RunID: stepData.RunID, MessageID: MessageTypeWorkStart, MessageData: workStartMsg}
 		// Handle signals to the step
 		if signalsToStep != nil {
-			c.wg.Add(1)
+			if err := c.addToWaitGroup(); err != nil {
+				return NewErrorExecutionResult(err)
+			}
 			go func() {
 				defer c.wg.Done()
 				c.executeWriteLoop(stepData.RunID, signalsToStep)
@@ -215,6 +217,21 @@ func (c *client) Execute(
 	c.logger.Debugf("Step '%s' started, waiting for response...", stepData.ID)
 
 	return c.getResult(stepData, cborReader)
+}
+
+var errClientClosed = fmt.Errorf("the ATP client has been closed")
+
+// addToWaitGroup registers one more goroutine for Close to wait for. A sync.WaitGroup must not be added to while
+// a Wait may be in progress (Close would panic with "WaitGroup is reused before previous Wait has returned"), so
+// nothing new is registered once Close has been called; done is set under the same mutex before Close waits.
+func (c *client) addToWaitGroup() error {
+	c.mutex.Lock()
+	defer c.mutex.Unlock()
+	if c.done {
+		return errClientClosed
+	}
+	c.wg.Add(1)
+	return nil
 }
 
 // Close Tells the client that it's done, and can stop listening for more requests.
@@ -553,6 +570,11 @@ func (c *client) prepareResultChannels(
 	c.logger.Debugf("Preparing result channels for step with run ID %q", stepData.RunID)
 	c.mutex.Lock()
 	defer c.mutex.Unlock()
+	if c.done {
+		// The read loop may have to be started below, and nothing may be added to the wait group once Close
+		// may be waiting on it.
+		return errClientClosed
+	}
 	_, existing := c.runningStepResultEntries[stepData.RunID]
 	if existing {
 		return fmt.Errorf("duplicate run ID given '%s'", stepData.RunID)
